@@ -242,6 +242,15 @@ impl Cfg {
     /// that need to be annotated. If it cannot find any, then it will return the original
     /// node's range.
     pub fn error_ranges_for_first_store(node: &Rc<CfgNode>, item: Register) -> Vec<RegisterToken> {
+        Self::first_stores(node, item)
+            .into_iter()
+            .map(|(_, reg)| reg)
+            .collect()
+    }
+
+    /// The last writes of a register on every path to a node, each with the node it is in.
+    #[must_use]
+    pub fn first_stores(node: &Rc<CfgNode>, item: Register) -> Vec<(Rc<CfgNode>, RegisterToken)> {
         let mut queue = VecDeque::new();
         let mut ranges = Vec::new();
         // push the previous nodes onto the queue
@@ -262,13 +271,13 @@ impl Cfg {
             visited.insert(Rc::clone(&prev));
             if let Some(reg) = prev.writes_to() {
                 if *reg.get() == item {
-                    ranges.push(reg);
+                    ranges.push((Rc::clone(&prev), reg));
                     continue;
                 }
             }
             queue.extend(prev.prevs().clone().into_iter());
         }
-        ranges.sort_by_key(|reg| reg.range());
+        ranges.sort_by_key(|(_, reg)| reg.range());
         ranges
     }
 
